@@ -1827,7 +1827,7 @@ class Rule(metaclass=LogicalType):
             with context.enter(route=i) as item_context:
                 try:
                     item_context.transformer(item, cls.contains)
-                except (TypeError, ValueError):
+                except Exception:   # noqa: an item that cannot be converted (OverflowError for inf / huge ints too) does not match
                     pass
                 else:
                     contains += 1
